@@ -821,6 +821,35 @@ pub fn judge_l(case: &LCase, end: &SimEnd, o: &LObs) -> LVerdict {
             probes.push(("one_server_read_returned_ge_2_requests", 1));
         }
     }
+    // ---- C14 over the real listen loop: never more than max_worker_threads connections in service.
+    // A connection is in service from the first server-side I/O on it until its worker drops it.
+    {
+        let mut marks: Vec<(u64, i32)> = Vec::new();
+        for c in &o.conns {
+            if let Some((s, _)) = c.srv_first_io {
+                marks.push((s, 1));
+                if let Some((e, _)) = c.srv_closed {
+                    marks.push((e, -1));
+                }
+            }
+        }
+        marks.sort();
+        let (mut cur, mut peak) = (0i32, 0i32);
+        for (_, d) in &marks {
+            cur += d;
+            peak = peak.max(cur);
+        }
+        if peak as usize > case.max {
+            v.push(viol(
+                "C14",
+                "bound",
+                format!("{} connections were in service at the same time, max_worker_threads is {}", peak, case.max),
+            ));
+        }
+        if peak as usize == case.max && case.conns.len() > case.max {
+            probes.push(("pool_saturated_with_connections_waiting", 1));
+        }
+    }
     // ---- K2: real clients
     for (k, (rc, ro)) in case.clients.iter().zip(o.real.iter()).enumerate() {
         judge_real_client(case, k, rc, ro, &mut v, &mut probes);
@@ -1955,6 +1984,81 @@ pub fn c13_plan(tier: Tier) -> Plan {
             "TCP vs unix sockets are not distinguished: both are reliable ordered byte streams behind the Stream trait".into(),
         ],
     }
+}
+
+/// C14 through the real listen loop: bursts of long-lived connections against small pools
+pub fn c14_spaces(tier: Tier) -> Vec<Space> {
+    use crate::alphabet::{Base, Flags, Kind};
+    let cfg = SvcCfg::basic();
+    let pools = [(1usize, 1usize), (1, 2), (1, 3), (2, 2), (2, 3), (1, 4), (3, 4), (3, 2)];
+    let seeds: u64 = if tier == Tier::Quick { 8 } else { 150 };
+    let nconns = [2usize, 3, 4, 5, 6];
+    let size = pools.len() as u64 * nconns.len() as u64 * 4 * seeds;
+    vec![Space {
+        name: "L.pool.bursts",
+        size,
+        exhaustive: false,
+        gen: Box::new(move |idx, seed| {
+            let mut rng = Rng::new(seed);
+            let mut i = idx / seeds;
+            let (initial, max) = pools[(i % pools.len() as u64) as usize];
+            i /= pools.len() as u64;
+            let n = nconns[(i % nconns.len() as u64) as usize];
+            i /= nconns.len() as u64;
+            // 0: all connect, then all send; 1: connect+send one by one without waiting;
+            // 2: the same with a quiescence wait after each; 3: some connections end in between
+            let pattern = i % 4;
+            let mut conns = Vec::new();
+            let mut steps = Vec::new();
+            for c in 0..n {
+                let s = token_stream(&cfg, &[Kind(Base::Echo, Flags::NONE), Kind(Base::GetInfo, Flags::NONE)], c);
+                conns.push(LConn::healthy(&s));
+            }
+            match pattern {
+                0 => {
+                    for c in 0..n {
+                        steps.push(Step::Connect(c));
+                    }
+                    for c in 0..n {
+                        steps.push(Step::Send(c, 10_000));
+                    }
+                }
+                1 => {
+                    for c in 0..n {
+                        steps.push(Step::Connect(c));
+                        steps.push(Step::Send(c, 10_000));
+                        if rng.chance(1, 3) {
+                            steps.push(Step::Yield(rng.range(1, 5) as u8));
+                        }
+                    }
+                }
+                2 => {
+                    for c in 0..n {
+                        steps.push(Step::Connect(c));
+                        steps.push(Step::Send(c, 10_000));
+                        steps.push(Step::Quiesce);
+                    }
+                }
+                _ => {
+                    for c in 0..n {
+                        steps.push(Step::Connect(c));
+                        steps.push(Step::Send(c, 10_000));
+                        if c > 0 && rng.chance(1, 2) {
+                            steps.push(Step::HalfClose(rng.usize(c)));
+                        }
+                        if rng.chance(1, 2) {
+                            steps.push(Step::Quiesce);
+                        }
+                    }
+                }
+            }
+            let mut lc = LCase::single(&cfg, conns[0].clone(), steps, SchedCfg::random(&mut rng, 1));
+            lc.conns = conns;
+            lc.initial = initial;
+            lc.max = max;
+            Case::L(lc)
+        }),
+    }]
 }
 
 pub fn c15_plan(tier: Tier) -> Plan {
